@@ -69,7 +69,7 @@ class RefDevice(ICommInterface):
     """
 
     def __init__(self, chans, flags=3, rxpadding=0, policy=None,
-                 streaming=False, idle_sleep=0.0002):
+                 streaming=False, idle_sleep=0.0002, ack_delay=0.0):
         super().__init__()
         self.chans = [dict(c) for c in chans]
         self.flags = flags
@@ -84,6 +84,9 @@ class RefDevice(ICommInterface):
         self.stopped = 0
         self.raw_writes = []
         self.idle_sleep = idle_sleep
+        self.ack_delay = ack_delay
+        self.applied = 0          # number of enable/div/start requests applied so far
+        self.state_lock = threading.Lock()
 
     # -- ICommInterface
     def start(self):
@@ -156,19 +159,24 @@ class RefDevice(ICommInterface):
             self.push(rc.chinfo(c["en"], c["typ"], c["vdim"], c["div"],
                                 c["mlen"], c["name"]))
             return
-        if kind == "start":
-            self.streaming = bool(payload[0])
-        elif kind == "enable":
-            new = rc.apply_set(payload, [1 if c["en"] else 0
-                                         for c in self.chans])
-            for c, v in zip(self.chans, new):
-                c["en"] = bool(v)
-        elif kind == "div":
-            new = rc.apply_set(payload, [c["div"] for c in self.chans])
-            for c, v in zip(self.chans, new):
-                c["div"] = v
+        with self.state_lock:
+            if kind == "start":
+                self.streaming = bool(payload[0])
+            elif kind == "enable":
+                new = rc.apply_set(payload, [1 if c["en"] else 0
+                                             for c in self.chans])
+                for c, v in zip(self.chans, new):
+                    c["en"] = bool(v)
+            elif kind == "div":
+                new = rc.apply_set(payload, [c["div"] for c in self.chans])
+                for c, v in zip(self.chans, new):
+                    c["div"] = v
+            self.applied += 1
         if self.ack_supported and act != "lostack":
-            self.push(rc.ack(0))
+            if self.ack_delay:
+                threading.Timer(self.ack_delay, self.push, args=(rc.ack(0),)).start()
+            else:
+                self.push(rc.ack(0))
 
 
 def simple_chans(n, typ=2, vdim=1):
